@@ -355,6 +355,12 @@ class C09:
                 cx = bytearray(gx.to_bytes(48, "big")); cx[0] |= 0x80 | (0x20 if gy > (pyc.FP - 1) // 2 else 0)
                 add("sig", bytes(cx) + sig[48:], True, "on-curve-outside-subgroup"); add("commit", bytes(cx) + cwp[48:], True, "on-curve-outside-subgroup")
                 add("proof", pr[:48] + bytes(cx) + pr[96:], True, "on-curve-outside-subgroup")
+            # several points outside the subgroup whose sum is inside it (T, -T; T, T, T of order 3)
+            for T, Tn in pyc.g1_torsion_pairs(rng, 3 if tier == "quick" else 20):
+                add("proof", T + Tn + pr[96:], True, "outside-subgroup-cancelling"); add("proof", pr[:48] + T + Tn + pr[144:], True, "outside-subgroup-cancelling")
+                add("proof", T + pr[48:96] + Tn + pr[144:], True, "outside-subgroup-cancelling")
+            T3 = pyc.g1_torsion_pairs(rng, 0)[0][0]
+            add("proof", T3 + T3 + T3 + pr[144:], True, "outside-subgroup-cancelling")
             for flag in (0x00, 0x20, 0x40, 0x60, 0xe0, 0xa0):
                 add("sig", bytes([(sig[0] & 0x1f) | flag]) + sig[1:], None, "flag-mangle")
                 add("pk", bytes([(pk[0] & 0x1f) | flag]) + pk[1:], None, "flag-mangle")
@@ -384,6 +390,7 @@ def fx(s): return bytes.fromhex(s)
 
 class C10:
     LEVEL = "translation_validation"
+    DISAGREEMENT_IS_VIOLATION = True    # the property IS equality with the reference: a disagreeing input is the failing input
     RULE = ("the reference is the extracted Coq model (hashing and all glue in Gallina, curve arithmetic delegated); it must first reproduce EVERY file under fixture_data/ and "
             "fixture_data_blind/ (checked against the fixture values on both sides, proofs and commitments through the replay queue with the draft's mocked scalars); then "
             "KeyGen/SkToPk, create_generators (counts 0..N, arbitrary api_id incl. oversize DST), messages_to_scalars, hash_to_scalar, sign and every accept/reject decision of the "
